@@ -82,21 +82,44 @@ class Check(PropertyCheck):
                 leaf = leaf['a'] if rng.random() < 0.5 else leaf['b']
             pts = query_points(rng, leaf, 16)
             ang = G.rangle(rng)
-            cases.append({'kind': pm, 'region': d, 'pts': [list(p) for p in pts], 'angle': ang,
-                          'o': [rng.uniform(-3, 3), rng.uniform(-3, 3)]})
+            case = {'kind': pm, 'region': d, 'pts': [list(p) for p in pts], 'angle': ang,
+                    'o': [rng.uniform(-3, 3), rng.uniform(-3, 3)]}
+            # history: the same OBJECT was used with other parameters before (annulus), or an operand of the
+            # compound is re-parametrised in place after the compound was built and used
+            if pm == 'annulus':
+                G.add_history(rng, case, prob=0.5)
+            elif d['kind'] == 'compound' and d['a']['kind'] in G.HISTORY_KINDS and 'origin' not in d['a'] and rng.random() < 0.3:
+                p0 = G.gen_simple(rng, kind=d['a']['kind'], scale=1.0, center_scale=3)
+                p0.pop('origin', None)
+                case['prev_a'] = p0
+            cases.append(case)
         return cases
+
+    def _build(self, case):
+        """(region, operand1, operand2) with the case's history applied."""
+        d = case['region']
+        if d['kind'] != 'compound':
+            return G.build_case(case), None, None
+        if 'prev_a' not in case:
+            return G.build(d), G.build(d['a']), G.build(d['b'])
+        from regions import CompoundPixelRegion
+        opf = {'and': operator.and_, 'or': operator.or_, 'xor': operator.xor}[d['op']]
+        r1, r2 = G.build(case['prev_a']), G.build(d['b'])
+        reg = CompoundPixelRegion(r1, r2, opf, meta=G._meta(d))
+        G.warm(reg)
+        G.reassign(r1, d['a'])
+        return reg, r1, r2
 
     def real(self, case):
         import astropy.units as u
         from regions import CompoundPixelRegion, PixCoord
         d = case['region']
-        reg = G.build(d)
+        reg, r1, r2 = self._build(case)
         xs = np.array([p[0] for p in case['pts']]); ys = np.array([p[1] for p in case['pts']])
         pc = PixCoord(xs, ys)
         out = {'contains': [bool(v) for v in np.ravel(reg.contains(pc))]}
         if d['kind'] == 'compound':
             # built through the operators of the public API as well
-            r1, r2 = G.build(d['a']), G.build(d['b'])
             opf = {'and': operator.and_, 'or': operator.or_, 'xor': operator.xor}[d['op']]
             viaop = opf(r1, r2)
             out['op_cls'] = type(viaop).__name__
